@@ -201,3 +201,7 @@ func IntByte(name string) byte { return byte(val(name, 8)) }
 // Concrete returns x; under the engine it case-splits into one path per feasible value of x
 // (for oracles whose arithmetic would otherwise multiply two symbolic values).
 func Concrete(x int) int { return x }
+
+// LetTimePass lets every armed timer fire (engine: the recorded callbacks run in arming
+// order; natively: sleep long enough for the library's real timers, all <= 10 ms here).
+func LetTimePass() { time.Sleep(60 * time.Millisecond) }
